@@ -271,6 +271,8 @@ type walker struct {
 	// statistics
 	nWritesSeen, nValueLocal, nCtorSkipped, nPrivate int
 	ctorFns                                          map[string]bool
+	ctorMutates                                      map[string]int
+	handsOn                                          map[[2]string]bool
 	ctorWrites                                       map[string]int     // constructor-phase function -> writes through references to reachable types
 	calls                                            map[[2]string]bool // (steady-state caller, callee)
 	assignedPkgVars                                  map[*types.Var]bool
@@ -618,6 +620,11 @@ func (w *walker) record(fc *fnCtx, target ast.Expr, kind string, addr bool) {
 	if fc.ctor {
 		w.nCtorSkipped++
 		w.ctorWrites[fc.name]++
+		// does the write go through something the caller handed in (receiver, parameter, expression) rather than
+		// through an object this function allocated itself?
+		if !(pi.root != nil && !(fc.recv != nil && pi.root == fc.recv) && !fc.params[pi.root] && fc.decl != nil && w.freshLocal(fc, pi.root)) {
+			w.ctorMutates[fc.name]++
+		}
 		return
 	}
 	e := base
@@ -776,6 +783,45 @@ func (w *walker) calleeName(call *ast.CallExpr) string {
 	return name + fn.Name()
 }
 
+// handsOwnOn: the call's receiver or one of its arguments mentions the enclosing function's receiver or a parameter
+// (so the callee may write through what the enclosing function was given)
+func (w *walker) handsOwnOn(fc *fnCtx, call *ast.CallExpr) bool {
+	found := false
+	look := func(e ast.Expr) {
+		ast.Inspect(e, func(n ast.Node) bool {
+			if id, ok := n.(*ast.Ident); ok {
+				if v, ok := w.p.info.Uses[id].(*types.Var); ok && ((fc.recv != nil && v == fc.recv) || fc.params[v]) && !plainData(v.Type()) {
+					found = true
+				}
+			}
+			return !found
+		})
+	}
+	if sel, ok := call.Fun.(*ast.SelectorExpr); ok {
+		look(sel.X)
+	}
+	for _, a := range call.Args {
+		look(a)
+	}
+	return found
+}
+
+// plainData: basic values and slices / arrays of basic values (source bytes, counts, offsets): nothing of a Font's
+// own types can be written through them (writes through primitive-typed slices are outside this analysis, see header)
+func plainData(t types.Type) bool {
+	switch u := t.Underlying().(type) {
+	case *types.Basic:
+		return true
+	case *types.Slice:
+		_, ok := u.Elem().Underlying().(*types.Basic)
+		return ok
+	case *types.Array:
+		_, ok := u.Elem().Underlying().(*types.Basic)
+		return ok
+	}
+	return false
+}
+
 func (w *walker) isOnceDo(call *ast.CallExpr) bool {
 	sel, ok := call.Fun.(*ast.SelectorExpr)
 	if !ok {
@@ -835,9 +881,12 @@ func (w *walker) walkBody(fc *fnCtx, body ast.Node) {
 				}
 			}
 		case *ast.CallExpr:
-			if !fc.ctor && !fc.inInit {
+			if !fc.inInit {
 				if callee := w.calleeName(n); callee != "" {
 					w.calls[[2]string{fc.name, callee}] = true
+					if w.handsOwnOn(fc, n) {
+						w.handsOn[[2]string{fc.name, callee}] = true
+					}
 				}
 			}
 			if id, ok := n.Fun.(*ast.Ident); ok {
@@ -1072,6 +1121,8 @@ func main() {
 	var pkgEff, fntEff []effect
 	ctorFns := map[string]bool{}
 	ctorWrites := map[string]int{}
+	ctorMutates := map[string]int{}
+	handsOn := map[[2]string]bool{}
 	calls := map[[2]string]bool{}
 	assigned := map[*types.Var]bool{}
 	initialised := map[*types.Var]bool{}
@@ -1079,7 +1130,7 @@ func main() {
 	stats := map[string]int{}
 	var walkers []*walker
 	for _, p := range pkgs {
-		w := &walker{l: l, p: p, r: r, ctorFns: ctorFns, ctorWrites: ctorWrites, calls: calls, assignedPkgVars: assigned, initialised: initialised, writtenThroughRef: wtr}
+		w := &walker{l: l, p: p, r: r, ctorFns: ctorFns, ctorWrites: ctorWrites, ctorMutates: ctorMutates, handsOn: handsOn, calls: calls, assignedPkgVars: assigned, initialised: initialised, writtenThroughRef: wtr}
 		w.walkPackage()
 		walkers = append(walkers, w)
 		stats["writes_seen"] += w.nWritesSeen
@@ -1174,9 +1225,27 @@ func main() {
 	}
 	fmt.Fprintf(&b, "].\n\n")
 
+	// a constructor-phase function "writes" when it or a constructor-phase function it (transitively) calls does
+	writesT := map[string]bool{}
+	for k, n := range ctorMutates {
+		if n > 0 {
+			writesT[k] = true
+		}
+	}
+	// ... or when it hands its own receiver / parameters on to such a function: a call whose receiver or argument
+	// is rooted at the caller's receiver or a parameter (recorded in handsOn)
+	for changed := true; changed; {
+		changed = false
+		for c := range handsOn {
+			if ctorFns[c[0]] && ctorFns[c[1]] && writesT[c[1]] && !writesT[c[0]] {
+				writesT[c[0]] = true
+				changed = true
+			}
+		}
+	}
 	var late [][2]string
 	for c := range calls {
-		if ctorWrites[c[1]] > 0 {
+		if !ctorFns[c[0]] && ctorFns[c[1]] && writesT[c[1]] {
 			late = append(late, c)
 		}
 	}
@@ -1186,8 +1255,9 @@ func main() {
 		}
 		return late[i][0] < late[j][0]
 	})
-	fmt.Fprintf(&b, "(* for review: calls of those functions from functions that are NOT constructor phase (callee, caller).\n")
-	fmt.Fprintf(&b, "   Each must be handing the callee an object that is still private to the caller. *)\n")
+	fmt.Fprintf(&b, "(* calls, from functions that are NOT constructor phase, of constructor-phase functions that write into a type\n")
+	fmt.Fprintf(&b, "   reachable from font.Font through their receiver / a parameter / an expression (themselves or via constructor-phase\n")
+	fmt.Fprintf(&b, "   callees they hand these on to): (callee, caller).  Spec/Effects.v admits only reviewed ones. *)\n")
 	fmt.Fprintf(&b, "Definition constructor_functions_called_late : list (string * string) := [")
 	for i, c := range late {
 		if i > 0 {
